@@ -152,6 +152,9 @@ def pollLoop : Nat → CS → CS × PollRes
 inductive COp where
   | ka (b : Bool) | req | allow | respOut | inb | respIn | drop | ignore | dropIgn
   | adv (d : Nat) | poll
+  /-- the handler closes the WRITE half of a held (counted / ignored) stream, or writes to it, and keeps
+  holding it: the stream still counts — no effect on what `Connection::poll` looks at -/
+  | closeW | closeWI | write
 
 def applyOp (c : CS) : COp → CS
   | .ka b => { c with keepAlive := b }
@@ -165,6 +168,9 @@ def applyOp (c : CS) : COp → CS
   | .dropIgn => if 0 < c.ignored then { c with ignored := c.ignored - 1 } else c
   | .adv d => { c with now := c.now + d }
   | .poll => c
+  | .closeW => c
+  | .closeWI => c
+  | .write => c
 
 /-- ghost: a stream condition holding after an op holds *now* -/
 def touch (c : CS) : CS := if busyS c then { c with lastBusy := c.now } else c
